@@ -32,6 +32,117 @@ def visit_str_keys(p, adt):
 
 
 
+def leaf_table(ctx, p, ct):
+    """C04-R2, leaf table of convert_tree.  By role: the id vector is the vector whose element type
+    is the payload type of TreeIndex::Pdf (the type binary_search is instantiated with).
+      (1) every push into it happens before the sort (nothing is appended to a sorted table);
+      (2) every binary_search on it - in the function or in a closure built there - comes after the sort;
+      (3) a found position v is turned into the node index v + len(orig_tree.nodes);
+      (4) the leaves are built from the elements of that vector (pdf_index = element as usize),
+          after the loop over the inner nodes."""
+    from ..expr import resolve_upvars
+    bodies = [ct] + list(p.nested(ct.path))
+    searches = []
+    for bd in bodies:
+        for bb, t in bd.calls():
+            c = t["callee"]
+            if c["k"] == "fndef" and cm.callee_name(c).endswith("::binary_search"):
+                searches.append((bd, bb, t, (c.get("args") or ["?"])[0]))
+    ctx.anchor("C04-R2", "binary_search calls locating a leaf", len(searches), 1, ct.loc())
+    if not searches:
+        return
+    idty = searches[0][3]
+    sorts, pushes = [], []
+    for bb, t in ct.calls():
+        c = t["callee"]
+        if c["k"] != "fndef":
+            continue
+        nm = cm.callee_name(c)
+        ga = c.get("args") or []
+        if (nm.endswith("::sort_unstable") or nm.endswith("::sort")) and ga[:1] == [idty]:
+            sorts.append(bb)
+        if nm.endswith("Vec::<T, A>::push") and ga[:1] == [idty]:
+            pushes.append(bb)
+    if len(sorts) != 1:
+        ctx.fail("C04-R2", ct.path, "leaf table sort", "the leaf-id vector (Vec<%s>) is sorted %d times; binary_search needs it sorted exactly once, after it is complete" % (idty, len(sorts)), ct.loc())
+        return
+    srt = sorts[0]
+    dom = ct.dominators()
+    late = [b_ for b_ in pushes if ct.can_reach(srt, b_)]
+    if late or not pushes:
+        ctx.fail("C04-R2", ct.path, "leaf table order", "ids are pushed into the leaf table after it was sorted (or never): binary_search would miss leaves", ct.loc())
+    else:
+        ctx.ok("C04-R2", "all %d pushes into the leaf-id vector precede its sort" % len(pushes), ct.loc())
+    okpos = True
+    for bd, bb, t, ty in searches:
+        if bd is ct:
+            after = srt in dom.get(bb, ())
+        else:
+            # the closure is constructed in convert_tree after the sort
+            after = False
+            for sbb, si, st in ct.iter_stmts():
+                if st.get("k") == "assign" and st["rv"]["k"] == "aggregate" and st["rv"]["kind"].get("k") == "closure" and st["rv"]["kind"].get("def") in (bd.path, bd.j.get("path")):
+                    after = srt in dom.get(sbb, ())
+        if not after:
+            okpos = False
+            ctx.fail("C04-R2", bd.path, "search before sort", "binary_search on the leaf table is not dominated by its sort", cm.loc_of(t["span"]))
+        # (3) the position -> node index map
+        ebd = ExprBuilder(bd)
+        maps = []
+        for ubb, ui, item in bd.uses(t["dest"]["local"]):
+            if ui == "term" and item["k"] == "call" and item["callee"]["k"] == "fndef" and cm.callee_name(item["callee"]).endswith("Result::<T, E>::map"):
+                maps.append((ubb, item))
+        if not maps:
+            # match form: Ok(v) => v + len
+            okpos = False
+            ctx.fail("C04-R2", bd.path, "leaf position", "the result of binary_search is not mapped to a node index with Result::map (unrecognised form)", cm.loc_of(t["span"]))
+            continue
+        for ubb, item in maps:
+            clo = ebd.at(ubb).op(item["args"][1])
+            cb = p.bodies.get(clo[1][len("closure:"):]) if clo[0] == "agg" and clo[1].startswith("closure:") else None
+            good = False
+            if cb is not None:
+                r = resolve_upvars(p, cb, ExprBuilder(cb).local(0))
+                pol = to_poly(r, lambda e: ("POS",) if e[0] == "arg" and e[1] == 2 else (("NODES",) if e[0] == "len" and show(e[1]).endswith("orig_tree.nodes") else None))
+                good = pol == Poly.atom(("POS",)) + Poly.atom(("NODES",))
+            if good:
+                ctx.ok("C04-R2", "a leaf found at sorted position v is referenced as node v + orig_tree.nodes.len()", cm.loc_of(item["span"]))
+            else:
+                okpos = False
+                ctx.fail("C04-R2", bd.path, "leaf position", "the node index of a leaf is not (position in the sorted id table) + (number of inner nodes): %s" % (show(r)[:120] if cb is not None else show(clo)[:120]), cm.loc_of(item["span"]))
+    # (4) the leaves
+    leaves = []
+    for bd in bodies:
+        ebd = ExprBuilder(bd)
+        for sbb, si, st in bd.iter_stmts():
+            if st.get("k") == "assign" and st["rv"]["k"] == "aggregate" and st["rv"]["kind"].get("variant") == "Leaf" and str(st["rv"]["kind"].get("def", "")).endswith("tree::TreeNode"):
+                leaves.append((bd, sbb, si, st, ebd.at(sbb, si).rvalue(st["rv"])))
+    general = [x for x in leaves if not (x[0] is ct and any(g[0] in ("true", "false") for g in paths.guards(ct, x[1], ExprBuilder(ct)) if "len(orig_tree.nodes)" in show(g[1])))]
+    ctx.anchor("C04-R2", "Leaf literals of the general path", len(general), 1, ct.loc())
+    for bd, sbb, si, st, e in general:
+        v = e[2][0] if e[0] == "agg" and e[2] else None
+        src_ok = False
+        if v is not None and v[0] == "cast":
+            x = v[2]
+            if bd is not ct and x[0] == "arg":
+                # closure mapped over the (consumed) id vector: its construction feeds Iterator::map over Vec<idty>
+                for bb, t in ct.calls():
+                    c = t["callee"]
+                    selfty = (c.get("args") or [""])[0] if c["k"] == "fndef" else ""
+                    if c["k"] == "fndef" and cm.callee_name(c).endswith("Iterator::map") and selfty in ("std::vec::IntoIter<%s>" % idty, "std::slice::Iter<'_, %s>" % idty):
+                        # plain, forward traversal of the sorted vector (not Rev<..>, Skip<..>, ..)
+                        clo_ = ExprBuilder(ct).at(bb).op(t["args"][1])
+                        if clo_[0] == "agg" and clo_[1] == "closure:" + bd.path:
+                            src_ok = srt in dom.get(bb, ())
+            elif bd is ct:
+                sx = show(x)
+                src_ok = "Iterator>::next(" in sx and srt in dom.get(sbb, ()) and not ("orig_tree.nodes" in sx)
+        if src_ok:
+            ctx.ok("C04-R2", "leaves are built from the sorted id vector, pdf_index = id as usize", cm.loc_of(st["span"]))
+        else:
+            ctx.fail("C04-R2", bd.path, "leaf order", "the appended leaves are not the elements of the sorted id table in order (pdf_index = %s)" % (show(v)[:100] if v else None), cm.loc_of(st["span"]))
+
+
 def r8_text_precision(ctx, p):
     """R8: numbers written as text in the voice file (window coefficients) are parsed at f64
     precision: the resolved parser combinators of the window-row parser are instantiated with
@@ -115,6 +226,17 @@ def r7_ranges(ctx, p):
                     return e2
                 return None
             lo, hi = rewrite(lo, unsplit), rewrite(hi, unsplit)
+            if not (lo[0] == "field" and lo[2] == "0") and b.kind == "Closure":
+                # `let (first, last) = range;` in the constructing function, captured one by one:
+                # captured variables stand for the values they were bound to
+                from ..expr import resolve_upvars
+                try:
+                    lo2 = resolve_upvars(p, b, lo)
+                    hi2 = success_value(p, resolve_upvars(p, b, hi))
+                    if lo2[0] == "field" and lo2[2] == "0":
+                        lo, hi = lo2, hi2
+                except Exception:  # noqa: BLE001
+                    pass
             # only ranges whose start is the first half of a pair
             if not (lo[0] == "field" and lo[2] == "0"):
                 continue
@@ -304,12 +426,7 @@ def run(ctx):
                 ctx.fail("C04-R2", ct.path, "bare-leaf shortcut", "a tree is collapsed into a single leaf without checking yes == no: a one-question tree with two different leaves loses its question and its no-branch leaf (single-node=%s, yes==no=%s)" % (one, same), ct.loc())
         # leaves are appended after the inner nodes, in sorted pdf order, and referenced by
         # binary_search position + nodes.len()
-        txt = show(eb.at(None).local(0))
-        calls = [cm.callee_name(t["callee"]) for bd_ in [ct] + list(p.nested(ct.path)) for bb, t in bd_.calls() if t["callee"]["k"] == "fndef"]
-        if any(c.endswith("sort_unstable") or c.endswith("::sort") for c in calls) and any(c.endswith("binary_search") for c in calls):
-            ctx.ok("C04-R2", "leaf ids are sorted once and located by binary_search (+ nodes.len())", ct.loc())
-        else:
-            ctx.fail("C04-R2", ct.path, "leaf table", "leaves are no longer sorted + binary-searched consistently", ct.loc())
+        leaf_table(ctx, p, ct)
     sn = cm.body_or_fail(ctx, p, "C04-R2", "model::voice::tree::Tree::search_node")
     if sn is not None:
         eb = ExprBuilder(sn)
@@ -528,6 +645,25 @@ def run(ctx):
                                 keys.append(rhs[1])
                             elif "split_once" in show(lhs) and show(lhs).endswith(".0.1"):
                                 vals.append(rhs[1])
+                if f == "use_log_gain" and val[0] == "var" and isinstance(val[1], int) and not vals:
+                    # `self.use_log_gain = match value { "1" => true, "0" => false, _ => return Err }`:
+                    # one store of a merged temporary; each of its definitions is judged under the
+                    # value comparison that dominates it
+                    nd = 0
+                    for dbb, didx, ditem in lm.defs().get(val[1], []):
+                        if lm.is_cleanup(dbb) or didx == "term":
+                            continue
+                        dv = eb.at(dbb, didx).rvalue(ditem["rv"])
+                        dvals = []
+                        for g in paths.guards(lm, dbb, eb):
+                            if g[0] == "true" and g[1][0] == "call" and g[1][1].endswith("PartialEq for str>::eq"):
+                                lhs, rhs = g[1][2]
+                                if rhs[0] == "s" and "split_once" in show(lhs) and show(lhs).endswith(".0.1"):
+                                    dvals.append(rhs[1])
+                        seen.setdefault(f, []).append((keys, dvals, dv, st))
+                        nd += 1
+                    if nd:
+                        continue
                 seen.setdefault(f, []).append((keys, vals, val, st))
             elif f == "sampling_frequency":
                 if show(val).endswith("global_metadata(voices).sampling_frequency"):
